@@ -252,7 +252,9 @@ func (p *Policy) sanitize(r io.Reader, w io.Writer) error {
 			// Comments are ignored by default
 			if p.allowComments {
 				// But if allowed then write the comment out as-is
-				buff.WriteString(token.String())
+				if _, err := buff.WriteString(token.String()); err != nil {
+					return err
+				}
 			}
 
 		case html.StartTagToken:
